@@ -77,3 +77,13 @@ Theorem c18_hook_nil_is_error :
 Proof. exact C18b.c18_hook_nil_is_error. Qed.
 Print Assumptions c18_hook_nil_is_error.
 
+
+(* ---- ties to the constant tables regenerated from the Go sources (tools/gotables -> GoTables.v) ---- *)
+From Coq Require Import List String ZArith NArith Bool. From Bexpr Require Import Base Strconv Ast Univ Eval Api Dump GoTables TableTie. Import ListNotations.
+
+Theorem default_options :
+  go_default_options = [("withMaxExpressions", "0"); ("withTagName", "bexpr"); ("withUnknown", "nil")] /\
+  o_max default_opts = 0%N /\ o_tag default_opts = "bexpr" /\ o_unknown default_opts = None.
+Proof. exact TableTie.default_options. Qed.
+Print Assumptions default_options.
+
